@@ -1,8 +1,174 @@
 import RoaringModel.Driver.Core
-/-! Driver handlers: family `Multi` (stub — replaced when the family's model exists) -/
-namespace Roaring.Driver
-open Roaring
+import RoaringModel.MultiOps
+import RoaringModel.SpecMulti
+/-!
+Driver handlers: family `Multi` (C09)
 
-def opsMulti : Handler := fun _ _ => none
+`multi <op> <kind> <hint> bD item…`   op ∈ {or,and,sub,xor}; kind ∈ {own, ref, res_own, res_ref};
+hint ∈ {exact, upper:K, none}; item ∈ {bK, err:E} (`err:E` only for the `res_*` kinds)
+prints `ok` (result stored in `bD`) or `err:E`, followed by ` | <path tags>` (the tags are model-side
+coverage only: everything from ` | ` on is outside the compared columns).
+-/
+namespace Roaring.Driver
+open Roaring Roaring.Multi
+
+def parseMOp (t : String) : Option (Multi.Op × Spec.MOp) :=
+  if t = "or" then some (.or, .or) else if t = "and" then some (.and, .and)
+  else if t = "sub" then some (.sub, .sub) else if t = "xor" then some (.xor, .xor) else none
+
+def parseHint (t : String) : Option Hint :=
+  if t = "exact" then some .exact
+  else if t = "none" then some .none
+  else if t.startsWith "upper:" then ((t.drop 6).toString.toNat?.filter (· ≤ 4294967295)).map .upper
+  else none
+
+/-- `(owned?, result?)` -/
+def parseKind (t : String) : Option (Bool × Bool) :=
+  if t = "own" then some (true, false) else if t = "ref" then some (false, false)
+  else if t = "res_own" then some (true, true) else if t = "res_ref" then some (false, true) else none
+
+def parseItems (st : DState) (allowErr : Bool) : List String → Option (List (Except Nat Slot))
+  | [] => some []
+  | t :: ts =>
+    let item : Option (Except Nat Slot) :=
+      if t.startsWith "err:" then
+        if allowErr then ((t.drop 4).toString.toNat?.filter (· ≤ 4294967295)).map .error else none
+      else (parseSlot 'b' t).bind fun i => (st.getB i).map .ok
+    match item, parseItems st allowErr ts with
+    | some x, some l => some (x :: l)
+    | _, _ => none
+
+def showRes {α : Type} : Except Nat α → String
+  | .ok _ => "ok"
+  | .error e => s!"err:{e}"
+
+/-! ### path tags -/
+
+structure Arms where
+  ins : Nat := 0
+  aa : Nat := 0
+  ab : Nat := 0
+  ba : Nat := 0
+  bb : Nat := 0
+  cow : Nat := 0   -- borrowed → owned transitions (ref versions)
+
+def Arms.add (a : Arms) : MergeArm → Arms
+  | .insert => { a with ins := a.ins + 1 }
+  | .arrArr => { a with aa := a.aa + 1 }
+  | .arrBmp => { a with ab := a.ab + 1 }
+  | .bmpArr => { a with ba := a.ba + 1 }
+  | .bmpBmp => { a with bb := a.bb + 1 }
+
+def Arms.show (a : Arms) : String := s!"arms={a.ins}/{a.aa}/{a.ab}/{a.ba}/{a.bb} cow={a.cow}"
+
+def armsOwned (op : Store → Store → Store) : List Container → List (Except Nat Bitmap) → Arms → Arms
+  | cs, .ok b :: rest, acc =>
+    let st := b.foldl (fun (st : List Container × Arms) r => (mergeStepOwned op st.1 r, st.2.add (mergeArm st.1 r))) (cs, acc)
+    armsOwned op st.1 rest st.2
+  | _, _, acc => acc
+
+def isBorrowedAt (cs : List Cow) (key : Nat) : Bool :=
+  match searchCow cs key with
+  | (true, loc) => match cs[loc]? with
+    | some (.borrowed _) => true
+    | _ => false
+  | _ => false
+
+def armsRef (op : Store → Store → Store) : List Cow → List (Except Nat Bitmap) → Arms → Arms
+  | cs, .ok b :: rest, acc =>
+    let st := b.foldl (fun (st : List Cow × Arms) r =>
+      let a := st.2.add (mergeArmRef st.1 r)
+      (mergeStepRef op st.1 r, if isBorrowedAt st.1 r.key then { a with cow := a.cow + 1 } else a)) (cs, acc)
+    armsRef op st.1 rest st.2
+  | _, _, acc => acc
+
+/-- index of the item before which the `if lhs.is_empty() { return Ok(lhs) }` fired -/
+def earlyExit (f : Bitmap → Bitmap → Bitmap) : Bitmap → List (Except Nat Bitmap) → Nat → Option Nat
+  | _, [], _ => none
+  | lhs, rhs :: rest, i =>
+    if lhs.isEmpty then some i
+    else match rhs with
+      | .error _ => none
+      | .ok r => earlyExit f (f lhs r) rest (i + 1)
+
+def multiTags (op : Multi.Op) (owned : Bool) (h : Hint) (xs : List (Except Nat Bitmap)) : String :=
+  let early (e : Option Nat) : String := match e with
+    | some i => s!" early={i}"
+    | none => ""
+  match op with
+  | .or =>
+    let t := "t=" ++ collectTag h xs.length
+    match orStartWith sortDesc h xs with
+    | .ok (some (c, rest)) =>
+      let skip := if c.isEmpty && (toCollect h xs.length).min xs.length > 1 then " skip" else ""
+      let arms := if owned then armsOwned Store.orAssignOwned c rest {} else armsRef Store.orAssignRef (c.map .borrowed) rest {}
+      t ++ skip ++ " " ++ arms.show
+    | .ok none => t ++ " nostart"
+    | .error _ => t ++ " collect-err"
+  | .and =>
+    let t := "t=" ++ collectTag h xs.length
+    match andStartWith sortAsc h xs with
+    | .ok (some (lhs, rest)) =>
+      t ++ early (earlyExit (if owned then andAssignOwned else andAssignRef) lhs rest 0)
+    | .ok none => t ++ " nostart"
+    | .error _ => t ++ " collect-err"
+  | .sub =>
+    match xs with
+    | .ok lhs :: rest => "seq" ++ early (earlyExit (if owned then subAssignOwned else subAssignRef) lhs rest 0)
+    | _ => "seq"
+  | .xor =>
+    match xs with
+    | .ok v :: rest =>
+      let arms := if owned then armsOwned Store.xorAssignOwned v rest {} else armsRef Store.xorAssignRef (v.map .borrowed) rest {}
+      "seq " ++ arms.show
+    | _ => "seq"
+
+def showOutcomes (os : List (Except Nat (List Nat))) : String :=
+  "|".intercalate (os.map fun o => match o with
+    | .ok s => s!"ok:{dumpSet s}"
+    | .error e => s!"err:{e}")
+
+def opsMulti : Handler := fun st toks =>
+  match toks with
+  | "multi" :: op :: kind :: hint :: d :: items => do
+    let (mop, sop) ← parseMOp op
+    let (owned, isRes) ← parseKind kind
+    let h ← parseHint hint
+    let di ← parseSlot 'b' d
+    if di ≥ 64 then none
+    let its ← parseItems st isRes items
+    let mitems : List (Except Nat Bitmap) := its.map fun it => it.map (·.m)
+    let sitems : List (Except Nat (List Nat)) := its.map fun it => it.map (·.s)
+    -- MODEL: the trait impl that `kind` selects
+    let r : Except Nat Bitmap :=
+      match owned, isRes with
+      | true, true => tryMultiOwned mop h mitems
+      | false, true => tryMultiRef mop h mitems
+      | true, false => .ok (multiOwned mop h (Spec.okValues mitems))
+      | false, false => .ok (multiRef mop h (Spec.okValues mitems))
+    -- SPEC: the admissible outcomes
+    let allowed := Spec.multiRes sop sitems
+    let got : Except Nat (List Nat) := r.map Bitmap.elems
+    let good := allowed.any fun o => match o, got with
+      | .ok a, .ok b => a == b
+      | .error a, .error b => a == b
+      | _, _ => false
+    -- An iterator that yields items although its `size_hint` promised at most 0 breaks the `Iterator`
+    -- contract; `collect_starting_elements` then collects nothing and ∪/∩ answer `∅`.  The property does not
+    -- apply (the theorems carry the hypothesis `0 < toCollect ∨ xs = []`); the model's answer is printed as is.
+    let lying : Bool := toCollect h its.length == 0 && !its.isEmpty && (mop == .or || mop == .and)
+    let good := good || lying
+    let out := showRes r ++ (if good then "" else " !SPEC(" ++ showOutcomes allowed ++ ")")
+    let tags := multiTags mop owned h mitems
+    let st' := match r with
+      | .ok m =>
+        -- the spec value stored next to it: the fold if there is no error, else `∅` (the only admissible `Ok`)
+        let s := if lying then Bitmap.elems m else match Spec.firstError sitems with
+          | none => Spec.multi sop (Spec.okValues sitems)
+          | some _ => []
+        st.setB di ⟨m, s⟩
+      | .error _ => st
+    pure (st', out ++ " | " ++ tags)
+  | _ => none
 
 end Roaring.Driver
